@@ -51,3 +51,52 @@ async fn f8_malformed_export_value_panics() {
     }
   }
 }
+
+async fn f9_build(with_registry: bool) -> Result<String, String> {
+  let result = std::panic::AssertUnwindSafe(async {
+    let mut sources = vec![(
+      "file:///main.ts",
+      Source::Module { specifier: "file:///main.ts", maybe_headers: None, content: "import 'jsr:http:[@1';" },
+    )];
+    if with_registry {
+      sources.push((
+        "https://jsr.io/http:[/meta.json",
+        Source::Module { specifier: "https://jsr.io/http:[/meta.json", maybe_headers: None, content: r#"{"versions": {"1.0.0": {}}}"# },
+      ));
+      sources.push((
+        "https://jsr.io/http:[/1.0.0_meta.json",
+        Source::Module {
+          specifier: "https://jsr.io/http:[/1.0.0_meta.json",
+          maybe_headers: None,
+          content: r#"{"exports": {".": "./mod.ts"}, "manifest": {}}"#,
+        },
+      ));
+    }
+    let loader = MemoryLoader::new(sources, vec![]);
+    let mut graph = ModuleGraph::new(GraphKind::All);
+    let analyzer = CapturingModuleAnalyzer::default();
+    graph
+      .build(vec![url("file:///main.ts")], vec![], &loader, BuildOptions { module_analyzer: &analyzer, ..Default::default() })
+      .await;
+    let errs: Vec<String> = graph.module_errors().map(|e| e.to_string().replace('\n', " ")).collect();
+    format!("{:?}", errs)
+  });
+  use futures::FutureExt;
+  result.catch_unwind().await.map_err(|p| {
+    p.downcast_ref::<String>().cloned().or_else(|| p.downcast_ref::<&str>().map(|s| s.to_string())).unwrap_or_default().replace('\n', " ")
+  })
+}
+
+/// F9: a source text that imports `jsr:http:[@1` makes the build panic: the package name `http:[` (deno_semver accepts
+/// any first path part as a name) is spliced into `registry_url.join("{name}/meta.json").unwrap()`, where it is read as
+/// an absolute URL with an invalid host.  With a registry that answers for that name the same happens one step later
+/// (version manifest URL, package URL).  C03: "a build finishes without panicking".
+#[tokio::test]
+async fn f9_jsr_package_name_read_as_url_panics() {
+  let a = f9_build(false).await;
+  let b = f9_build(true).await;
+  match (&a, &b) {
+    (Ok(x), Ok(y)) => println!("REPLAY F9 ABSENT build finished; errors without registry entry: {}; with: {}", x, y),
+    _ => println!("REPLAY F9 PRESENT build panicked: {}", a.err().or(b.err()).unwrap_or_default()),
+  }
+}
